@@ -227,8 +227,8 @@ def check_guarded(F, rep, R, cg, bodies):
     # the canonical path itself derives from the function's path parameter
     for ib, it in inserts:
         r = sl.roots(it["args"][1])
-        rep.check(any(x[0] == "call" and x[1].endswith("canonicalize") for x in r) or any(x[0] == "arg" for x in r), "C20-R4",
-                  "%s:active-key-is-canonical-path" % name, "the active-set key does not derive from canonicalize(path)", where)
+        rep.check(any(x[0] == "call" and x[1].endswith("canonicalize") for x in r), "C20-R4",
+                  "%s:active-key-is-canonical-path" % name, "the active-set key does not derive from canonicalize(path): two spellings of one file (`a.mec`, `sub/../a.mec`, a symlink) are different keys, so a cycle through them is not detected (roots: %s)" % sorted(map(str, r))[:4], where)
 
     # R5 who may call
     callers = set()
